@@ -252,6 +252,7 @@ def check_css_x(case, rec):
     check_css(case, rec, True)
 
 
+SHRINK = {'html', 'css', 'html-x', 'css-x'}
 CHECKS = {'html': check_html, 'css': check_css, 'html-x': check_html_x, 'css-x': check_css_x}
 
 HTML_SEEDS = ['<a><b></b></a>', '<div class="a" id=b><br><img src="x>y"/></div>', '<!-- <a> --><p>t</p>', '<![CDATA[<a>]]><b/>',
